@@ -97,6 +97,15 @@ def actions(stmts) -> str:
     raise Refuse(f'line {s.lineno}: statement not accepted in _tracking_task: {txt[:100]}')
 
 
+def fingerprint_deep(node) -> int:
+    """like fingerprint, with the docstrings of nested functions / classes removed as well"""
+    n2 = ast.parse(ast.unparse(node)).body[0]
+    for x in ast.walk(n2):
+        if isinstance(x, (ast.FunctionDef, ast.AsyncFunctionDef, ast.ClassDef)):
+            x.body = nodoc(x.body) or [ast.Pass()]
+    return int(hashlib.sha256(ast.dump(n2, annotate_fields=True, include_attributes=False).encode()).hexdigest()[:15], 16)
+
+
 def fingerprint(fn) -> int:
     fn2 = ast.parse(ast.unparse(fn)).body[0]
     fn2.body = nodoc(fn2.body) or [ast.Pass()]
@@ -208,6 +217,43 @@ def translate(src: Path) -> dict:
                  '_request_untracking', '_set_tracking_state'):
         out.append(f'Definition FP_{name.strip("_")} : N := {fingerprint(find_func(utm.body, name))}%N.\n')
     out.append(f'Definition FP_cancel_task : N := {fingerprint(find_func(ut.body, "cancel_task"))}%N.\n')
+    # ---- helpers the tracking code relies on (phase 8)
+    ev = ast.parse((base / 'events.py').read_text())
+    bus = find_class(ev, 'EventBus')
+    tk = ast.parse((base / 'tasks.py').read_text())
+    nw = ast.parse((base / 'network' / 'network.py').read_text())
+    msgs = ast.parse((base / 'protocol' / 'messages.py').read_text())
+    tmod = ast.parse((base / 'transfer' / 'model.py').read_text())
+    ucls = find_class(um, 'UserManager')
+    # TrackingState values the harness / model codes (0 untracked, 1 tracked, 2 retry_pending)
+    ts = find_class(mm, 'TrackingState')
+    tsv = [(x.targets[0].id, x.value.value) for x in nodoc(ts.body) if isinstance(x, ast.Assign) and isinstance(x.value, ast.Constant)]
+    if tsv != [('UNTRACKED', 'untracked'), ('TRACKED', 'tracked'), ('RETRY_PENDING', 'retry_pending')]:
+        raise Refuse(f'TrackingState members changed: {tsv}')
+    # Transfer.is_finalized: the finalized states (ground truth of "unfinished transfer" in the glue scenarios)
+    fin = find_func(find_class(tmod, 'Transfer').body, 'is_finalized')
+    fin_states = sorted(x.attr for x in ast.walk(fin) if isinstance(x, ast.Attribute) and isinstance(x.value, ast.Name) and x.value.id == 'TransferState')
+    if fin_states != ['ABORTED', 'COMPLETE', 'FAILED']:
+        raise Refuse(f'Transfer.is_finalized: finalized states changed: {fin_states}')
+    out.append('\n(* helpers (phase 8): TrackingState members and the finalized transfer states are checked by the translator; pinned: *)\n')
+    helpers = [('EventBus_emit', find_func(bus.body, 'emit')), ('EventBus_register', find_func(bus.body, 'register')),
+               ('EventBus_get_listeners_for_event', find_func(bus.body, '_get_listeners_for_event')),
+               ('BackgroundTask', find_class(tk, 'BackgroundTask')),
+               ('Network_send_server_messages', find_func(find_class(nw, 'Network').body, 'send_server_messages')),
+               ('UserManager_track_user', find_func(ucls.body, 'track_user')), ('UserManager_untrack_user', find_func(ucls.body, 'untrack_user')),
+               ('UserManager_get_user_object', find_func(ucls.body, 'get_user_object')),
+               ('UserManager_get_tracking_flags', find_func(ucls.body, 'get_tracking_flags')),
+               ('UserManager_get_tracking_state', find_func(ucls.body, 'get_tracking_state')),
+               ('UTM_init', find_func(utm.body, '__init__')), ('UTM_register_listeners', find_func(utm.body, 'register_listeners')),
+               ('UTM_get_tracking_flags', find_func(utm.body, 'get_tracking_flags')), ('UTM_get_tracking_state', find_func(utm.body, 'get_tracking_state')),
+               ('UTM_request_tracking', find_func(utm.body, '_request_tracking')),
+               ('TrackedUser', tu), ('AddUser', find_class(msgs, 'AddUser')), ('RemoveUser', find_class(msgs, 'RemoveUser')),
+               ('TM_get_unfinished_transfers', find_func(tmc.body, 'get_unfinished_transfers')),
+               ('TM_get_finished_transfers', find_func(tmc.body, 'get_finished_transfers')),
+               ('TM_request_management_cycle', find_func(tmc.body, 'request_management_cycle')),
+               ('Transfer_is_finalized', fin)]
+    for nm, node in helpers:
+        out.append(f'Definition FPH_{nm} : N := {fingerprint_deep(node)}%N.\n')
     return {'TrackGen.v': ''.join(out)}
 
 
